@@ -199,6 +199,10 @@ func analyseListLoop(p *load.Program, fn *ssa.Function, list *ssa.Parameter) *li
 		case *ssa.Call:
 			if sc := c.Call.StaticCallee(); sc != nil {
 				pc.kind, pc.callee = condCall, sc.String()
+				// a tiny predicate `return x == marker` applied to the element
+				if neg, ok := markerPredicate(p, sc); ok && len(c.Call.Args) >= 1 && isElem(c.Call.Args[len(c.Call.Args)-1]) {
+					pc.kind, pc.neg, pc.callee = condIsMarker, neg, ""
+				}
 			}
 		case *ssa.UnOp:
 			if c.Op == token.NOT {
@@ -270,7 +274,29 @@ func analyseListLoop(p *load.Program, fn *ssa.Function, list *ssa.Parameter) *li
 				if flag != nil {
 					for i, pred := range h.Preds {
 						if pred == b {
-							if cst, ok := flag.Edges[i].(*ssa.Const); ok && cst.Value != nil && cst.Value.String() == "true" {
+							v := flag.Edges[i]
+							// resolve phis of join blocks (e.g. the post block of a counted loop) along this path
+							for depth := 0; depth < 6; depth++ {
+								ph, isPhi := v.(*ssa.Phi)
+								if !isPhi || ph == flag {
+									break
+								}
+								resolved := false
+								for k := 1; k < len(c.blocks); k++ {
+									if c.blocks[k] == ph.Block() {
+										for ei, pb := range ph.Block().Preds {
+											if pb == c.blocks[k-1] {
+												v = ph.Edges[ei]
+												resolved = true
+											}
+										}
+									}
+								}
+								if !resolved {
+									break
+								}
+							}
+							if cst, ok := v.(*ssa.Const); ok && cst.Value != nil && cst.Value.String() == "true" {
 								c.flagSet = true
 							}
 						}
@@ -349,4 +375,33 @@ func (ep *elemPath) typeFact(markerT types.Type) (t types.Type, isNil bool) {
 		}
 	}
 	return nil, false
+}
+
+// markerPredicate: fn is a one-block function returning param == marker (or !=).
+func markerPredicate(p *load.Program, fn *ssa.Function) (neg bool, ok bool) {
+	if fn.Blocks == nil || len(fn.Blocks) != 1 || !p.InPkg(fn) {
+		return false, false
+	}
+	ret, isRet := fn.Blocks[0].Instrs[len(fn.Blocks[0].Instrs)-1].(*ssa.Return)
+	if !isRet || len(ret.Results) != 1 {
+		return false, false
+	}
+	bo, isBo := ret.Results[0].(*ssa.BinOp)
+	if !isBo || (bo.Op != token.EQL && bo.Op != token.NEQ) {
+		return false, false
+	}
+	isMarkerV := func(v ssa.Value) bool {
+		mi, ok := v.(*ssa.MakeInterface)
+		if !ok {
+			return false
+		}
+		ld, ok := mi.X.(*ssa.UnOp)
+		return ok && ld.Op == token.MUL && ld.X == ssa.Value(p.Roles.Marker)
+	}
+	_, xp := bo.X.(*ssa.Parameter)
+	_, yp := bo.Y.(*ssa.Parameter)
+	if (xp && isMarkerV(bo.Y)) || (yp && isMarkerV(bo.X)) {
+		return bo.Op == token.NEQ, true
+	}
+	return false, false
 }
